@@ -307,6 +307,88 @@ def gen_propagator(rng, idx):
     return {'kind': 'propagator', 'site': {'type': 'SpinHalf', 'conserve': None}, 'L': L, 'A': {'terms': terms}, 'dts': dts}
 
 
+RANGE_TAGS = [(a, b) for a in ('known', 'none', 'inf') for b in ('known', 'none', 'inf')]
+K_TTL_NEG = 'C11:to_TermList:result-with-negative-IdR-marker:no-terms'
+
+
+def gen_results(rng, idx):
+    """operands X (short range), Y (contains one long-range coupling; Hermitian or not), Y2 (Y rewritten, or differing in the
+    long-range coupling only), Z (short range) whose documented meta-data `max_range` is known / None (given by W tensors) / inf in
+    every combination; RESULTS of sums in both orders, daggers, plus_identity and sums of sums, finite and infinite.  The long
+    coupling always fits into the window that is_equal documents for an unknown range (3 L sites)."""
+    kind = rng.choice(['SpinHalf', 'SpinHalf', 'Fermion'])
+    finite = rng.random() < 0.45
+    conserve = rng.choice([None, None, 'Sz' if kind == 'SpinHalf' else 'N'])
+    if finite:
+        L = rng.choice([4, 5, 5, 6])
+        nwin, N, cell = 1, L, None
+        i0 = 0
+        rmax = L - 1
+    else:
+        L = rng.choice([1, 2, 2, 2, 3])
+        nwin = {1: 6, 2: 4, 3: 3}[L]
+        N, cell = L * nwin, L
+        i0 = rng.randint(0, L - 1)
+        # the coupling i0 .. i0 + rl lies inside the sites range(3 L) that is_equal documents for an unknown range
+        rmax = min(3 * L - 1 - i0, N - L)
+    rl = max(2, rmax - rng.choice([0, 0, 0, 1, 2]))
+    rl = min(rl, rmax)
+    if finite:
+        i0 = rng.randint(0, L - 1 - rl)
+    herm_long = rng.random() < 0.55
+    c = [round(rng.uniform(0.5, 1.5), 3), 0 if herm_long or rng.random() < 0.5 else round(rng.uniform(0.3, 1.0), 3)]
+    if kind == 'SpinHalf':
+        if herm_long and rng.random() < 0.5:
+            long_terms = [[[['Sz', i0], ['Sz', i0 + rl]], c]]
+        else:
+            long_terms = [[[['Sp', i0], ['Sm', i0 + rl]], c]]
+            if herm_long:
+                long_terms.append([[['Sm', i0], ['Sp', i0 + rl]], [c[0], -c[1]]])
+    else:
+        long_terms = [[[['Cd', i0], ['C', i0 + rl]], c]]
+        if herm_long:
+            long_terms.append([[['Cd', i0 + rl], ['C', i0]], [c[0], -c[1]]])
+    short = lambda n: gen_terms(rng, kind, N if not finite else L, conserve, False, True, n, maxrange=1, cell=cell)
+    X = short(rng.randint(1, 2))
+    Y = long_terms + (short(1) if rng.random() < 0.5 else [])
+    Z = short(1)
+    how = rng.choice(['same-order', 'same-split', 'coefficient-long', 'coefficient-long', 'drop-long'])
+    Y2 = copy.deepcopy(Y)
+    if how == 'same-order':
+        Y2 = Y2[::-1]
+    elif how == 'same-split':
+        t, st = Y2[0]
+        Y2[0] = [t, [st[0] - 0.25, st[1]]]
+        Y2.append([copy.deepcopy(t), [0.25, 0]])
+    elif how == 'coefficient-long':
+        for q in range(len(long_terms)):
+            Y2[q] = [Y2[q][0], [Y2[q][1][0] * 0.5, Y2[q][1][1]]]
+    else:
+        Y2 = Y2[len(long_terms):] or short(1)
+    tx, ty = RANGE_TAGS[idx % 9]
+    hows = lambda: rng.choice(['ctor', 'wflat'])
+    operands = {'X': {'terms': X, 'range': tx, 'how': hows()}, 'Y': {'terms': Y, 'range': ty, 'how': hows()},
+                'Y2': {'terms': Y2, 'range': ty, 'how': hows()}, 'Z': {'terms': Z, 'range': rng.choice(['known', 'known', 'none', 'inf']), 'how': hows()}}
+    results = {'S': ['add', 'X', 'Y'], 'Sr': ['add', 'Y', 'X'], 'S2': ['add', 'X', 'Y2'], 'D': ['dagger', ['add', 'X', 'Y']],
+               'DS': ['add', ['dagger', 'Y'], 'X'], 'T': ['add', ['add', 'X', 'Y'], 'Z']}
+    if finite:
+        results['P'] = ['plus_identity', ['add', 'X', 'Y'], cpx(rng, False), cpx(rng, False, real=True)]
+        results['PS'] = ['add', ['plus_identity', 'Y', cpx(rng, False), [1.0, 0.0]], 'X']
+    case = {'kind': 'results', 'site': {'type': kind, 'conserve': conserve}, 'L': L, 'bc': 'finite' if finite else 'infinite', 'nwin': nwin,
+            'seed': 9000 + idx, 'operands': operands, 'results': results, 'long': {'range': rl, 'hermitian': herm_long, 'pair': how},
+            'compare': [['S', 'S2'], ['S2', 'S'], ['S', 'Sr'], ['Sr', 'S2'], ['S', 'S'], ['D', 'S'], ['T', 'S'], ['DS', 'Sr']],
+            'ev_max_range': rng.choice([12, 30, 200])}
+    if finite:
+        if conserve is None:
+            case['state'] = {'kind': rng.choice(['full', 'full', 'product'])}
+        else:
+            p = [rng.choice(['up', 'down'] if kind == 'SpinHalf' else ['empty', 'full']) for _ in range(L)]
+            case['state'] = {'kind': 'rue', 'p_state': p}
+    else:
+        case['psi_L'] = L if rng.random() < 0.5 else 2 * L
+    return case
+
+
 UI_DTS = [[1, 0], [2, 0], [-1, 0], [0, 1], [0, -1], [1, 1], [2, -1], [-1, 2], [3, 0], [0, 2], [0, 0]]
 
 
@@ -670,6 +752,164 @@ def check_infinite(ctx, case, r):
             ctx.fail('oracle', text, label, match_key=key)
 
 
+def term_span(t):
+    return max(k for _, k in t) - min(k for _, k in t)
+
+
+def check_results(ctx, case, r):
+    label = {'stream': 'results', 'case': case}
+    if 'runner_error' in r:
+        ctx.fail('correspondence', 'runner failed: ' + r['runner_error'][-500:], label)
+        return
+    ops, mats = load(r)
+    kind = case['site']['type']
+    L, N = r['L'], r['N']
+    finite = case['bc'] == 'finite'
+    geo = O.Geometry(chain_info(L, N, finite))
+    dense = O.Dense(geo, [ops], [r['needs_JW']])
+    cell = None if finite else L
+    probs = []
+
+    def terms_of(expr):
+        """(term list or None, dense operator on the window, true range) of an expression, from the documentation"""
+        if isinstance(expr, str):
+            tl = case['operands'][expr]['terms']
+            return tl, dense_terms(dense, tl, infinite_cell=cell)[0], max(term_span(t) for t, _ in tl)
+        if expr[0] == 'add':
+            ta, da, ra = terms_of(expr[1])
+            tb, db, rb = terms_of(expr[2])
+            return (ta + tb if ta is not None and tb is not None else None), da + db, max(ra, rb)
+        if expr[0] == 'dagger':
+            ta, da, ra = terms_of(expr[1])
+            th = None
+            if ta is not None:
+                th = []
+                for t, st in ta:
+                    ht, hs = hc_term(kind, t, st)
+                    th.append([ht, hs])
+            return th, da.conj().T, ra
+        if expr[0] == 'plus_identity':
+            ta, da, ra = terms_of(expr[1])
+            return None, complex(*expr[2]) * np.eye(dense.D) + complex(*expr[3]) * da, ra
+        raise ValueError(expr[0])
+    for nm, (claimed, tag) in r['operand_max_range'].items():
+        true_r = max(term_span(t) for t, _ in case['operands'][nm]['terms'])
+        if claimed is None or claimed < true_r:
+            probs.append(('C11:results:max_range-of-from_term_list', 'MPO built from the term list of %s claims max_range %s, its longest term has range %d'
+                          % (nm, claimed, true_r)))
+    refs = {}
+    psi = mats.get('psi')
+    vec = None
+    if not finite:
+        Lp = case.get('psi_L', L)
+        vec = np.array([1.0 + 0j])
+        for k in range(N):
+            vec = np.kron(vec, np.array([complex(*x) for x in r['state'][k % Lp]]))
+        Lc = max(L, Lp)
+    for nm, expr in case['results'].items():
+        o = r['results'].get(nm, {})
+        tl, ref, true_r = terms_of(expr)
+        refs[nm] = ref
+        desc = '%s = %s with max_range of the operands %s' % (nm, expr if len(str(expr)) < 90 else str(expr)[:90],
+                                                             {k_: v_['range'] for k_, v_ in case['operands'].items()})
+        scale = max(1.0, float(np.max(np.abs(ref))))
+        tol = TOL * scale
+        if 'R/' + nm not in mats:
+            continue
+        if maxdiff(mats['R/' + nm], ref) > tol:
+            probs.append(('C11:results:dense', '%s: W tensors differ from the dense operator by %.3e' % (desc, maxdiff(mats['R/' + nm], ref))))
+            continue
+        # documented meta-data: "maximum range of hopping/interactions, None for unknown" - a known range is an upper bound
+        mr = o.get('max_range')
+        for which, val in (('', mr), (' after sort_legcharges()', o.get('max_range_sorted', mr))):
+            if val is not None and val != 'inf' and val < true_r:
+                probs.append(('C11:results:max_range-underclaimed', '%s: the result claims max_range=%s%s but contains a coupling of range %d'
+                              % (desc, val, which, true_r)))
+                break
+        herm_defect = maxdiff(ref, ref.conj().T)
+        nonzero = float(np.max(np.abs(ref))) > 1e-9
+        if 'is_hermitian' in o and nonzero:
+            if herm_defect <= tol and not o['is_hermitian']:
+                probs.append(('C11:results:is_hermitian:false-negative', '%s: the operator is Hermitian but is_hermitian() is False' % desc))
+            if herm_defect > 1e-4 * scale and o['is_hermitian']:
+                probs.append(('C11:results:is_hermitian:false-positive', '%s: the operator is not Hermitian (defect %.2e, in a coupling of range %d) '
+                              'but is_hermitian() is True' % (desc, herm_defect, case['long']['range'])))
+        # (to_TermList starts every term with weight 1 at IdL: not meaningful after plus_identity with beta != 1, which puts beta there)
+        scaled = 'plus_identity' in str(expr) and any(isinstance(e_, list) and e_[0] == 'plus_identity' and list(e_[3]) != [1.0, 0.0]
+                                                      for e_ in [expr] + [x_ for x_ in expr[1:] if isinstance(x_, list)])
+        if 'to_TermList' in o and not scaled:
+            T = tl_tensor_dense(dense, o['to_TermList'], cell=cell)
+            if 'plus_identity' in str(expr):
+                # (a multiple of the identity is not a term: compared modulo the identity)
+                T = T + (np.trace(ref) - np.trace(T)) / dense.D * np.eye(dense.D)
+            good = maxdiff(T, ref) <= tol
+            if not good:
+                longest = max([term_span(t) for t, _ in o['to_TermList']] + [0])
+                probs.append(('C11:results:to_TermList', '%s: the terms of to_TermList() (longest range %d) differ from the operator by %.3e; '
+                              'the operator has a coupling of range %d' % (desc, longest, maxdiff(T, ref), true_r)))
+            Traw = tl_tensor_dense(dense, o['to_TermList_raw'], cell=cell)
+            if 'plus_identity' in str(expr):
+                Traw = Traw + (np.trace(ref) - np.trace(Traw)) / dense.D * np.eye(dense.D)
+            if maxdiff(Traw, ref) > tol and good:
+                if o.get('IdR_negative') and not o['to_TermList_raw']:
+                    probs.append((K_TTL_NEG, '%s: to_TermList() of the result returns NO terms (IdR markers of the sum are -1, which never equals a '
+                                  'column index); after sort_legcharges() the terms are right' % desc))
+                else:
+                    probs.append(('C11:results:to_TermList_raw', '%s: the terms of to_TermList() before sort_legcharges() differ from the operator by %.3e'
+                                  % (desc, maxdiff(Traw, ref))))
+        if finite and psi is not None:
+            phi = ref @ psi
+            ev = np.vdot(psi, phi)
+            if 'expectation_value' in o and abs(complex(*o['expectation_value']) - ev) > 1e-9 * scale:
+                probs.append(('C11:results:expectation_value', '%s: expectation_value = %s, dense <psi|R|psi> = %s' % (desc, o['expectation_value'], ev)))
+            if 'variance' in o:
+                var = np.vdot(psi, ref @ phi) - ev ** 2
+                if abs(complex(*o['variance']) - var) > 1e-8 * scale ** 2:
+                    probs.append(('C11:results:variance', '%s: variance = %s, dense <R^2> - <R>^2 = %s' % (desc, o['variance'], var)))
+        elif not finite and tl is not None:
+            dens = 0
+            for sh in range(0, Lc, L):
+                for t, st in tl:
+                    mn = min(k for _, k in t)
+                    sh0 = -(mn // L) * L            # translate so that the term starts in the first unit cell
+                    tt = [(o_, k + sh0 + sh) for o_, k in t]
+                    if dens is not None and max(k for _, k in tt) < N:
+                        dens += complex(*st) * np.vdot(vec, dense.product(tt) @ vec)
+                    else:
+                        dens = None
+            if dens is not None:
+                dens = dens / Lc
+                for q in ('expectation_value', 'expectation_value_mr', 'expectation_value_power', 'expectation_value_TM'):
+                    if q in o and abs(complex(*o[q]) - dens) > 1e-7 * scale:
+                        probs.append(('C11:results:' + q, '%s: %s = %s, density of the terms in the product state = %s' % (desc, q, o[q], dens)))
+    for a, b in case['compare']:
+        key = a + ':' + b
+        if key not in r['is_equal'] or a not in refs or b not in refs:
+            continue
+        A, B = refs[a], refs[b]
+        nA, nB = float(np.sum(np.abs(A) ** 2)), float(np.sum(np.abs(B) ** 2))
+        if nA + nB < 1e-12:
+            continue
+        rel = float(np.sum(np.abs(A - B) ** 2)) / (nA + nB)
+        tags = {k_: v_['range'] for k_, v_ in case['operands'].items()}
+        if rel < 1e-13 and not r['is_equal'][key]:
+            probs.append(('C11:results:is_equal:false-negative', '%s.is_equal(%s) is False for the same operator (%s, %s; max_range of the operands %s)'
+                          % (a, b, case['results'][a], case['results'][b], tags)))
+        if rel > 1e-6 and r['is_equal'][key]:
+            probs.append(('C11:results:is_equal:false-positive', '%s.is_equal(%s) is True although the operators differ (relative distance %.2e on the window) in a '
+                          'coupling of range %d <= 3L-1 (%s = %s, %s = %s; max_range of the operands %s; claimed max_range of %s: %s)'
+                          % (a, b, rel, case['long']['range'], a, case['results'][a], b, case['results'][b], tags, a, r['results'][a].get('max_range'))))
+    for nm, e in r['errors'].items():
+        probs.append(('C11:results:raises:' + nm.split(':')[0], 'operation %s raised %s' % (nm, e)))
+    ctx.count('results', case, nontrivial=True, sample={'L': L, 'bc': case['bc'], 'site': case['site'], 'long': case['long'],
+                                                        'ranges': {k_: v_['range'] for k_, v_ in case['operands'].items()}})
+    seen = set()
+    for key, text in probs:
+        if key not in seen:
+            seen.add(key)
+            ctx.fail('oracle', text, label, match_key=key)
+
+
 def check_propagator(ctx, case, r):
     label = {'stream': 'propagator', 'case': case}
     if 'runner_error' in r:
@@ -762,6 +1002,9 @@ def main(ctx):
     n_inf = ctx.pick(120, 1000)
     n_prop = ctx.pick(16, 120)
     n_ui = ctx.pick(150, 700)
+    n_res = ctx.pick(108, 900)
+    if not ctx.proof.ok:
+        n_res = int(n_res * 1.5)
     if not ctx.proof.ok:
         n_alg = int(n_alg * 1.6)
         n_ui = int(n_ui * 1.6)
@@ -771,11 +1014,14 @@ def main(ctx):
         replay = json.load(open(ctx.replay_in)).get('input') or {}
         if isinstance(replay.get('case'), dict):
             cases.append(replay['case'])
-            n_alg = n_inf = n_prop = n_ui = 0
+            n_alg = n_inf = n_prop = n_ui = n_res = 0
     cases += [gen_algebra(rng, i) for i in range(n_alg)]
     cases += [gen_infinite(rng, i) for i in range(n_inf)]
     cases += [gen_propagator(rng, i) for i in range(n_prop)]
     cases += [gen_ui(rng, i) for i in range(n_ui)]
+    import random as _random
+    rrng = _random.Random(ctx.seed * 7919 + 1111)          # own generator: the streams above are unchanged
+    cases += [gen_results(rrng, i) for i in range(n_res)]
     nchunk = common.NPROC
     order = list(range(len(cases)))
     chunks = [order[i::nchunk] for i in range(nchunk)]
@@ -798,6 +1044,8 @@ def main(ctx):
                 check_infinite(ctx, case, r)
             elif case['kind'] == 'ui':
                 check_ui(ctx, case, r, coq)
+            elif case['kind'] == 'results':
+                check_results(ctx, case, r)
             else:
                 check_propagator(ctx, case, r)
         except Exception:
@@ -833,6 +1081,9 @@ def main(ctx):
         for i in range(len(lits)):
             ctx.count(name, [name, i, lits[i][:200]], nontrivial=True)
         total += len(lits)
+    if os.environ.get('C11_DEBUG'):
+        import json as _j
+        _j.dump(ctx.violations, open(os.environ['C11_DEBUG'], 'w'), default=str)
     ctx.cov['traces_validated_against_impl'] = total
     ctx.assumptions += [
         'C11 model: W entries are decomposed into an orthogonal basis of named operators (Id, Sp, Sm, Sz / Id, JW, C, Cd) with Gaussian-integer '
